@@ -14,6 +14,9 @@ package l4tls
 
 import (
 	"bytes"
+	"context"
+	"encoding/json"
+	"sync"
 	"crypto/ecdsa"
 	"crypto/elliptic"
 	"crypto/rand"
@@ -30,6 +33,7 @@ import (
 	"testing"
 	"time"
 
+	"github.com/caddyserver/caddy/v2"
 	"github.com/caddyserver/caddy/v2/modules/caddytls"
 	"go.uber.org/zap"
 
@@ -666,8 +670,18 @@ type vC07MatchRes struct {
 
 // MatchTLS.Match through the public path on a connection that holds exactly p as prefetched bytes
 func vC07Match(p []byte, subs []caddytls.ConnectionMatcher) vC07MatchRes {
+	res, _ := vC07MatchOn(nil, p, subs)
+	return res
+}
+
+// the same on a connection of an existing lineage: like Connection.Wrap, the new connection shares
+// the Context (variable table and replacer) of the connection that lineage started with
+func vC07MatchOn(lineage context.Context, p []byte, subs []caddytls.ConnectionMatcher) (vC07MatchRes, context.Context) {
 	m := &MatchTLS{matchers: subs, logger: zap.NewNop()}
 	cx := layer4.WrapConnection(&vC07Conn{}, append([]byte{}, p...), zap.NewNop())
+	if lineage != nil {
+		cx.Context = lineage
+	}
 	ok, err := layer4.MatcherSet{m}.Match(cx)
 	res := vC07MatchRes{}
 	switch {
@@ -694,7 +708,7 @@ func vC07Match(p []byte, subs []caddytls.ConnectionMatcher) vC07MatchRes {
 	} else if res.set {
 		res.set = false
 	}
-	return res
+	return res, cx.Context
 }
 
 // ---------------------------------------------------------------- mutations
@@ -1186,6 +1200,8 @@ func TestVerifC07(t *testing.T) {
 
 	stats := map[string]int{}
 	var gateRecords [][]byte
+	var prevRec []byte
+	var prevName string
 	hellos := 0
 	for i := 0; hellos < n && i < 4*n; i++ {
 		cfg := vC07GenCfg(r, i)
@@ -1369,6 +1385,37 @@ func TestVerifC07(t *testing.T) {
 			gateRecords = append(gateRecords, rec)
 		}
 
+		// a later tls matcher on the same connection lineage (tls matcher -> tls handler -> tls matcher
+		// on the inner stream): first an OUTER hello, then this hello or a non-TLS inner stream
+		if prevRec != nil && i%4 == 0 {
+			_, lineage := vC07MatchOn(nil, prevRec, nil)
+			second, _ := vC07MatchOn(lineage, rec, subs)
+			stats["rematch"]++
+			if second != mr {
+				out.Fail("C07:rematch:stale-hello", fmt.Sprintf("tls matcher on a connection whose outer stream carried another hello (server name %q): answered %+v for the inner hello; on a fresh connection the same bytes give %+v",
+					prevName, second, mr), map[string]any{"outer": fmt.Sprintf("%x", prevRec), "inner": fmt.Sprintf("%x", rec), "cfg": cfg.String()})
+			}
+			if !useSni {
+				out.Case(fmt.Sprintf("CRematch %s %s %s %s %s %s %s %d", vC07B(prevRec), vC07B(rec), cBool(useAlpn), vC07SL(ac), second.verdict, cBool(second.set), vC07B([]byte(second.name)), second.version),
+					"rematch:hello", true, nil)
+			}
+			plain := [][]byte{[]byte("GET / HTTP/1.1\r\nHost: inner.example\r\n\r\n"), []byte("SSH-2.0-OpenSSH_9.6\r\n"), append([]byte{0x17}, rec[1:]...), {0, 0, 0, 8, 4, 210, 22, 47}, r.Bytes(5 + r.Intn(40))}[r.Intn(5)]
+			if plain[0] == 0x16 {
+				plain[0] = 0x15
+			}
+			_, lineage = vC07MatchOn(nil, rec, nil)
+			third, _ := vC07MatchOn(lineage, plain, nil)
+			if third.verdict != "No" {
+				out.Fail("C07:rematch:non-handshake-matched", fmt.Sprintf("bare tls matcher on a non-TLS inner stream %q of a connection whose outer stream carried a hello: answered %s", plain, third.verdict),
+					map[string]any{"outer": fmt.Sprintf("%x", rec), "inner": fmt.Sprintf("%x", plain)})
+			}
+			out.Case(fmt.Sprintf("CRematch %s %s false [] %s %s %s %d", vC07B(rec), vC07B(plain), third.verdict, cBool(third.set), vC07B([]byte(third.name)), third.version),
+				"rematch:plain", true, nil)
+		}
+		if expectOk {
+			prevRec, prevName = rec, seen.name
+		}
+
 		// RFC 8446 5.1: a handshake message may be fragmented across several records; crypto/tls
 		// servers reassemble it.  The same hello, split in two records at a generated point.
 		if i%6 == 0 {
@@ -1496,6 +1543,8 @@ func TestVerifC07(t *testing.T) {
 		}
 	}
 
+	vC07Nested(t, out, r, stats)
+
 	keys := make([]string, 0, len(stats))
 	for k := range stats {
 		keys = append(keys, k)
@@ -1508,5 +1557,159 @@ func TestVerifC07(t *testing.T) {
 	out.Stat("gate-records", len(gateRecords))
 	if stats["server-accepted"] < hellos/2 {
 		t.Errorf("only %d of %d hellos were accepted by the crypto/tls server: the generator is off", stats["server-accepted"], hellos)
+	}
+}
+
+// ---------------------------------------------------------------- TLS inside TLS through real routes
+// A compiled RouteList: [tls{sni outer} -> terminate] then routes with tls matchers that look at
+// the inner stream, and a crypto/tls client that runs an inner session (or plain bytes) inside the
+// outer one.  The terminate handler does what l4tls.Handler.Handle does (tls.Server over cx,
+// handshake, next.Handle(cx.Wrap(tlsConn))) with a throw-away certificate instead of the tls app.
+var vC07NestedState struct {
+	sync.Mutex
+	cert     tls.Certificate
+	route    string
+	rendered string
+}
+
+type vC07Terminate struct{}
+
+func (vC07Terminate) CaddyModule() caddy.ModuleInfo {
+	return caddy.ModuleInfo{ID: "layer4.handlers.verif_c07_terminate", New: func() caddy.Module { return new(vC07Terminate) }}
+}
+func (vC07Terminate) Handle(cx *layer4.Connection, next layer4.Handler) error {
+	tc := tls.Server(cx, &tls.Config{Certificates: []tls.Certificate{vC07NestedState.cert}, NextProtos: []string{"outer-proto"}})
+	if err := tc.Handshake(); err != nil {
+		return err
+	}
+	return next.Handle(cx.Wrap(tc))
+}
+
+type vC07Record struct {
+	Name string `json:"name,omitempty"`
+}
+
+func (vC07Record) CaddyModule() caddy.ModuleInfo {
+	return caddy.ModuleInfo{ID: "layer4.handlers.verif_c07_record", New: func() caddy.Module { return new(vC07Record) }}
+}
+func (h *vC07Record) Handle(cx *layer4.Connection, _ layer4.Handler) error {
+	repl := cx.Context.Value(layer4.ReplacerCtxKey).(*caddy.Replacer)
+	vC07NestedState.Lock()
+	vC07NestedState.route = h.Name
+	vC07NestedState.rendered = repl.ReplaceAll("{l4.tls.server_name}|{l4.tls.version}", "<unset>")
+	vC07NestedState.Unlock()
+	return nil
+}
+
+func vC07RunNested(routesJSON string, outerName string, inner func(outer *tls.Conn)) (route, rendered string, err error) {
+	vC07NestedState.Lock()
+	vC07NestedState.route, vC07NestedState.rendered = "", ""
+	vC07NestedState.Unlock()
+	ctx, cancel := caddy.NewContext(caddy.Context{Context: context.Background()})
+	defer cancel()
+	var routes layer4.RouteList
+	if err := json.Unmarshal([]byte(routesJSON), &routes); err != nil {
+		return "", "", err
+	}
+	if err := routes.Provision(ctx); err != nil {
+		return "", "", err
+	}
+	compiled := routes.Compile(zap.NewNop(), 10*time.Second, layer4.HandlerFunc(func(cx *layer4.Connection) error {
+		vC07NestedState.Lock()
+		vC07NestedState.route = "fallthrough"
+		vC07NestedState.Unlock()
+		return nil
+	}))
+	cli, srv := net.Pipe()
+	cli.SetDeadline(time.Now().Add(20 * time.Second))
+	srv.SetDeadline(time.Now().Add(20 * time.Second))
+	done := make(chan struct{})
+	go func() {
+		defer close(done)
+		outer := tls.Client(cli, &tls.Config{ServerName: outerName, NextProtos: []string{"outer-proto"}, InsecureSkipVerify: true})
+		if err := outer.Handshake(); err != nil {
+			return
+		}
+		inner(outer)
+	}()
+	cx := layer4.WrapConnection(srv, []byte{}, zap.NewNop())
+	herr := compiled.Handle(cx)
+	srv.Close()
+	cli.Close()
+	<-done
+	vC07NestedState.Lock()
+	defer vC07NestedState.Unlock()
+	return vC07NestedState.route, vC07NestedState.rendered, herr
+}
+
+var vC07NestedOnce sync.Once
+
+func vC07Nested(t *testing.T, out *vOut, r *vRng, stats map[string]int) {
+	cert, err := vC07Cert()
+	if err != nil {
+		out.Stat("nested-setup-failed", fmt.Sprint(err))
+		return
+	}
+	vC07NestedOnce.Do(func() {
+		caddy.RegisterModule(vC07Terminate{})
+		caddy.RegisterModule(vC07Record{})
+	})
+	vC07NestedState.cert = cert
+	n := 6
+	if vThorough() {
+		n = 24
+	}
+	for k := 0; k < n; k++ {
+		outerName := []string{"outer.example", "edge.example.net", "a.b.outer.test"}[r.Intn(3)]
+		innerName := []string{"inner.example", "deep.inner.example.org", "x.test"}[r.Intn(3)]
+		innerProto := []string{"inner-proto", "h2", "acme-tls/1"}[r.Intn(3)]
+		minv := []uint16{tls.VersionTLS12, tls.VersionTLS13}[r.Intn(2)]
+		kind := k % 3 // 0: inner TLS routed by alpn first, 1: inner TLS routed by sni first, 2: plain bytes inside
+		alpnRoute := fmt.Sprintf(`{"match":[{"tls":{"alpn":[%q]}}], "handle":[{"handler":"verif_c07_record","name":"inner-alpn"}]}`, innerProto)
+		sniRoute := fmt.Sprintf(`{"match":[{"tls":{"sni":[%q]}}], "handle":[{"handler":"verif_c07_record","name":"inner-sni"}]}`, innerName)
+		first, second := alpnRoute, sniRoute
+		wantRoute := "inner-alpn"
+		if kind == 1 {
+			first, second = sniRoute, alpnRoute
+			wantRoute = "inner-sni"
+		}
+		routes := fmt.Sprintf(`[
+			{"match":[{"tls":{"sni":[%q]}}], "handle":[{"handler":"verif_c07_terminate"}]},
+			%s,
+			%s,
+			{"match":[{"tls":{"sni":[%q]}}], "handle":[{"handler":"verif_c07_record","name":"outer-again"}]},
+			{"match":[{"tls":{}}], "handle":[{"handler":"verif_c07_record","name":"tls-other"}]}
+		]`, outerName, first, second, outerName)
+		desc := map[string]any{"outer_sni": outerName, "inner_sni": innerName, "inner_alpn": innerProto, "kind": kind, "routes": routes}
+		var route, rendered string
+		var herr error
+		if kind == 2 {
+			plain := [][]byte{[]byte("GET / HTTP/1.1\r\nHost: inner.example\r\n\r\n"), []byte("SSH-2.0-OpenSSH_9.6\r\n"), {0x17, 3, 3, 0, 2, 1, 2}}[r.Intn(3)]
+			desc["inner_bytes"] = fmt.Sprintf("%q", plain)
+			route, rendered, herr = vC07RunNested(routes, outerName, func(outer *tls.Conn) {
+				outer.Write(plain)
+				outer.Read(make([]byte, 1))
+			})
+			stats["nested-plain"]++
+			if herr == nil && route != "fallthrough" {
+				out.Fail("C07:nested:plain-stream-matched", fmt.Sprintf("a non-TLS stream %q inside a terminated TLS session (outer SNI %q) was taken by route %q; no tls matcher may match it",
+					plain, outerName, route), desc)
+			}
+		} else {
+			route, rendered, herr = vC07RunNested(routes, outerName, func(outer *tls.Conn) {
+				in := tls.Client(outer, &tls.Config{ServerName: innerName, NextProtos: []string{innerProto}, MinVersion: minv, InsecureSkipVerify: true})
+				in.Handshake() // never answered: ends when the server side closes
+			})
+			stats["nested-tls"]++
+			wantR := innerName + "|771"
+			if herr == nil && (route != wantRoute || rendered != wantR) {
+				out.Fail("C07:nested:inner-hello-stale", fmt.Sprintf("inner TLS session (SNI %q, ALPN %q) inside a terminated session with SNI %q: taken by route %q with placeholders %q; the inner hello calls for route %q with %q",
+					innerName, innerProto, outerName, route, rendered, wantRoute, wantR), desc)
+			}
+		}
+		if herr != nil {
+			// the scenario did not run to the end (e.g. handshake timed out on a loaded machine): no claim
+			stats["nested-incomplete"]++
+		}
 	}
 }
